@@ -79,7 +79,9 @@ Check (C01p_ceval_unsound_if_operands_judged_inside : run w_scope = "OK 7 OUT 1"
 Check (C01p_consteval_nonvacuous : cwf nv_ce1 = true /\ ceval_ok nv_ce1 = true /\ ceval all_on nv_ce1 <> nv_ce1 /\
   run nv_ce1 = "OK (4 . (5 . ())) OUT 2 3" /\ run (ceval all_on nv_ce1) = "OK (4 . (5 . ())) OUT 2 3" /\
   cwf nv_ce2 = true /\ ceval_ok nv_ce2 = true /\ ceval all_on nv_ce2 <> nv_ce2 /\
-  run (ceval all_on nv_ce2) = "OK (1 . (2 . ())) OUT 1").
+  run (ceval all_on nv_ce2) = "OK (1 . (2 . ())) OUT 1" /\
+  cwf nv_ce3 = true /\ ceval_ok nv_ce3 = true /\ ceval all_on nv_ce3 = Prim PDisplay (one (Num 42)) /\
+  run nv_ce3 = "OK #<void> OUT 42").
 Print Assumptions C01p_guards_match_source.
 Print Assumptions C01p_flatten_preserves.
 Print Assumptions C01p_flatten_observable.
